@@ -93,6 +93,57 @@ def prf_sites(chk):
             chk.violation(R, inst, F.where(c), 'call shape is %s' % got, key='%s %s' % (R, fn))
 
 
+def tls10_prf_shape(chk):
+    """RFC 2246 5: PRF(secret, label, seed) = P_MD5(S1, ...) XOR P_SHA-1(S2, ...), S1 / S2 = first / last ceil(L/2) bytes of the secret"""
+    R = 'tls-prf-call-shape'
+    src = 'src/ssl/prf_md5sha1.c'
+    u = build.load_unit(src)
+    f = next((x for x in u['functions'] if x['name'] == 'br_tls10_prf' and not x['decl']), None)
+    if f is None:
+        raise AnalysisBroken('br_tls10_prf not found')
+    F = irf.Func(u, f)
+    ph = F.calls('br_tls_phash')
+    inst = 'br_tls10_prf: P_MD5 over the first and P_SHA-1 over the last ceil(L/2) secret bytes'
+    if len(ph) != 2:
+        chk.violation(R, inst, F.where(), '%d calls of br_tls_phash (expected 2)' % len(ph), key='%s tls10 count' % R)
+        return
+
+    def expr(o, depth=0):
+        if o['k'] == 'c':
+            return str(o['v'])
+        if o['k'] == 'a':
+            return 'arg%d' % o['v']
+        if o['k'] in ('g', 'f'):
+            return '@' + o['v']
+        if o['k'] in ('cegep', 'cecast'):
+            return expr(o['base'], depth + 1)
+        if o['k'] != 'i' or depth > 8:
+            return '?'
+        i = F.insts[o['v']]
+        if i['op'] in ('zext', 'sext', 'trunc', 'bitcast'):
+            return expr(i['ops'][0], depth + 1)
+        if i['op'] in ('add', 'sub', 'lshr', 'shl'):
+            return '%s(%s,%s)' % (i['op'], expr(i['ops'][0], depth + 1), expr(i['ops'][1], depth + 1))
+        if i['op'] == 'getelementptr':
+            parts = [expr(i['ops'][0], depth + 1)] + [('%d*' % sc if sc != 1 else '') + expr(vo, depth + 1) for vo, sc in (i.get('var') or [])]
+            if i.get('off'):
+                parts.append(str(i['off']))
+            return '+'.join(parts)
+        return '?' + i['op']
+    half = 'lshr(add(arg3,1),1)'
+    got = [(expr(c['ops'][2]), expr(c['ops'][3]), expr(c['ops'][4])) for c in ph]
+    want = [('@br_md5_vtable', 'arg2', half), ('@br_sha1_vtable', None, half)]
+    okk = got[0] == want[0] and got[1][0] == want[1][0] and got[1][2] == half
+    # S2 = secret + (L - ceil(L/2)): two GEP terms arg3 and -slen
+    s2 = got[1][1]
+    okk = okk and s2.startswith('arg2') and 'arg3' in s2 and (half in s2)
+    if okk:
+        chk.ok(R, inst, F.where(ph[0]), str(got))
+    else:
+        chk.violation(R, inst, F.where(ph[0]), 'call shapes are %s; RFC 2246 requires (MD5, secret, (L+1)>>1) and (SHA-1, secret + L - ((L+1)>>1), (L+1)>>1)' % (got,),
+                      key='%s br_tls10_prf' % R)
+
+
 def run(tier):
     chk = report.Check('C13', tier,
                        'Constant tables and class descriptors of the hash functions compared with values generated from the standards '
@@ -231,5 +282,6 @@ def run(tier):
         else:
             chk.violation(R, inst, src, 'slots: %s' % slots, key='%s %s slots' % (R, h))
     prf_sites(chk)
+    tls10_prf_shape(chk)
     chk.floor('tables', sum(1 for o in chk.obls if o['rule'] == 'hash-constants'), 15)
     return chk.finish()
